@@ -267,6 +267,9 @@ def build_classes(prog):
         def kind(self):
             return self._kind
 
+        def __len__(self):
+            return len(self._members)
+
         def add_members(self, new_members):
             self._aware("add_members()")
             if isinstance(new_members, (str, Obj)):
@@ -341,13 +344,14 @@ def build_model(classes, attrs):
         for g in r._genes:
             g._reaction.add(r)
         m.reactions.append(r)
-    g1, g2 = Group("G1"), Group("G2")
-    for g, mem in ((g1, [r1, mets[0], genes[0]]), (g2, [g1, r2])):
+    # G3 is an empty group nested in G2 (an empty group is falsy: Group defines __len__)
+    g1, g2, g3 = Group("G1"), Group("G2"), Group("G3")
+    for g, mem in ((g1, [r1, mets[0], genes[0]]), (g3, []), (g2, [g1, r2, g3])):
         g._model = m
         g._members = _DL(mem) if isinstance(g.__dict__.get("_members"), _DL) or attrs["Group"].get("_members") is _DL else (set(mem) if attrs["Group"].get("_members") is set else list(mem))
         m.groups.append(g)
     special = {"_reaction", "_metabolites", "_genes", "_members", "_gpr", "_model", "_id", "metabolites", "reactions", "genes", "groups", "_solver", "_contexts", "_lower_bound", "_upper_bound"}
-    for o in [m] + mets + genes + [r1, r2, g1, g2]:
+    for o in [m] + mets + genes + [r1, r2, g1, g2, g3]:
         saved = {k: o.__dict__[k] for k in special if k in o.__dict__}
         fill(o)
         o.__dict__.update(saved)
